@@ -187,6 +187,17 @@ def gen_case_a(rng, W, pausable, want, maxnew=3):
                                 g.mark("created_after_seed", "seed %d %d" % (k, rng.randint(-3, 3)))
                             elif x < 0.85:
                                 g.mark("created_after_seed", "get %d" % k)
+                        if fresh and rng.random() < 0.4:
+                            # the late objects take part in a statement and are destroyed again BEFORE the pass: the statement
+                            # that mentions their gradient indices stays on the tape while i_gradient_ falls back
+                            k0 = fresh[-1]
+                            toks, val = g.expr(1)
+                            g.live[k0] = val
+                            g.emit("asg %d %s" % (k0, " ".join(toks)))
+                            for k in reversed(fresh):
+                                if k in g.live:
+                                    del g.live[k]; g.emit("del %d" % k)
+                            g.last_lhs = None
                     g.emit("tape"); g.emit("state")
                     if created:
                         g.mark("pass_after_creation", kind)
